@@ -35,9 +35,13 @@ def gen_cases(tier, seed):
     n = 500 if tier == "quick" else 6000
     alpha = b"aab \n\r" + "é€".encode()
     cases = []
-    for feats, wf in ((('dir', 'act', 'class', 'utf8'), True), (('dir', 'act', 'class', 'utf8', 'cut', 'env'), False)):
+    # third stream: ill-formed UTF-8 (runs of continuation bytes, invalid and truncated leads): how much of such a run one
+    # `any` / set / class consumes must not depend on how much of it has been delivered
+    bad = b"a\x80\x80\xbf\xe9\xf8\xc3\xf0"
+    for feats, wf, alpha in ((('dir', 'act', 'class', 'utf8'), True, alpha), (('dir', 'act', 'class', 'utf8', 'cut', 'env'), False, alpha),
+                             (('act', 'class', 'utf8'), False, bad)):
         g = Gen(rnd, features=feats, wellformed=wf, max_rules=3, max_depth=4, ninputs=4, maxlen=8, alphabet=alpha)
-        for _ in range(n):
+        for _ in range(n if alpha is not bad else n // 2):
             parts, G, start = g.grammar()
             for _ in range(g.ninputs):
                 s = g.mutate(g.sample(G[start], G))[:14] if rnd.random() < 0.6 else bytes(rnd.choice(alpha) for _ in range(rnd.randint(0, 8)))
